@@ -41,8 +41,12 @@ void vh_unpoison_input(vh_ctx_t * v) { ASAN_UNPOISON_MEMORY_REGION(v->inbuf, v->
 /* ---- capture interface ----------------------------------------------------------- */
 void (*vh_on_write_cb)(scpi_t * context, const char * data, size_t len);
 void (*vh_on_error_cb)(scpi_t * context, int err);
+static void decoy_maybe_from_write(vh_ctx_t * v);
 static size_t cb_write(scpi_t * context, const char * data, size_t len) {
     vh_ctx_t * v = VH_OF(context);
+    /* another port of the instrument (another context, another task) may produce its whole answer while this write is still waiting for its
+     * transport: the bytes handed over here must not live in storage that the other context's results share */
+    decoy_maybe_from_write(v);
     vh_buf_add(&v->out, data, len);
     v->nwrite++;
     v->write_after_flush = 1;
@@ -181,6 +185,8 @@ static void decoy_run(void) {
     }
     decoy_busy = 0;
 }
+static void decoy_maybe(void);
+static void decoy_maybe_from_write(vh_ctx_t * v) { if (v != decoy) decoy_maybe(); }
 static void decoy_maybe(void) { if (decoy_every && !decoy_busy && (++decoy_tick % decoy_every) == 0) { int e = errno; decoy_run(); errno = e; } }
 
 scpi_bool_t vh_input(vh_ctx_t * v, const void * data, size_t len) {
